@@ -192,7 +192,9 @@ size_t fread(void *p, size_t sz, size_t n, FILE *fp){
   __CPROVER_assert(sz * n == 0 || __CPROVER_w_ok(p, sz * n), "fread: size*count does not exceed the buffer");
   if (sz * n == 0) return 0;
   size_t got = nondet_size_t(); __CPROVER_assume(got <= n);
+#ifndef VERIF_FREAD_NOHAVOC
   __CPROVER_havoc_slice(p, sz * n);
+#endif
   if (got < n) { if (nondet_bool()) s->eof = 1; else { s->err = 1; errno = EIO; } }
   return got;
 }
